@@ -39,6 +39,7 @@ type Obligation struct {
 	FailSMT   string
 	Detail    string
 	Variant   string
+	Bounded   string // non-empty: the function was checked under this stated bound (not counted as proved)
 	OutsideRegion string // for known findings: status of the clause outside the listed region
 	Replayed  bool
 	ReplayObs string
@@ -202,6 +203,19 @@ func (e *Engine) shapedParam(st *State, p *ssa.Parameter, shape string) Value {
 					}
 					for i := 0; i < stt.NumFields(); i++ {
 						if stt.Field(i).Name() == parts[0] {
+							if strings.HasPrefix(parts[1], "slice") {
+								// a slice of known length with symbolic elements (bounded shapes)
+								var n int
+								fmt.Sscanf(parts[1][5:], "%d", &n)
+								if sl, ok := stt.Field(i).Type().Underlying().(*types.Slice); ok {
+									elems := make([]Value, n)
+									for j := range elems {
+										elems[j] = e.symbolicOf(st, sl.Elem(), fmt.Sprintf("%s.%s.%d", name, parts[0], j), 0)
+									}
+									fs[i] = VSlice{Cell: e.newCell(st, VStruct{elems}), Lo: 0, Hi: n}
+								}
+								continue
+							}
 							switch parts[1] {
 							case "nil":
 								fs[i] = e.zeroOf(stt.Field(i).Type())
@@ -670,6 +684,7 @@ func (e *Engine) verifyFunction(ct *Contract, prop string, tier string) *fnResul
 	}
 	for _, id := range oblOrder {
 		o := obls[id]
+		o.Bounded = ct.Flags["bounded"]
 		if o.Kind == "mustfail" {
 			if o.Detail == "refuted" {
 				o.Status = "discharged"
